@@ -5,6 +5,7 @@ CONSTANTS
   RCoef = 3
   RBound = 3
   RBuilds = 2
+  RDecs = {TRUE, FALSE}
   CoefNeg = 0
   CoefPos = 0
   ConstMax = 0
